@@ -246,10 +246,7 @@ theorem newTokenResult_read (h : Heap) (st : Nat) (b : BErr) :
 theorem doBlock_read (c : Nat) (s : RSlot) (st : Style) (typ : Nat) (h : Heap) :
     ((doBlock c s st typ h).1.trs (doBlock c s st typ h).2).status = 1 ∧
     getBE (doBlock c s st typ h).1 (doBlock c s st typ h).2 = some (blockVal s typ) := by
-  cases st with
-  | fresh => exact newTokenResult_read h 1 _
-  | ctx => exact resetToBlockedWith_read h _ _
-  | own => exact resetToBlockedWith_read h _ _
+  cases st <;> first | exact resetToBlockedWith_read h _ _ | exact newTokenResult_read h 1 _ | exact resetToBlockedWith_read (resetToPass h (h.ctxs c)) (h.ctxs c) _
 
 theorem runRules_allPass (c : Nat) (rs : List RSlot) (h : Heap) (hs : stopOf rs = .allPass) :
     (runRules c rs h).2.2.2 = .allPass := by
@@ -722,10 +719,7 @@ theorem refurbish_ext (h : Heap) (c : Nat) : h.Ext (refurbish h c) :=
   (resetToPass_ext h _).trans (poolPut_ext _ c)
 
 theorem doBlock_ext (c : Nat) (s : RSlot) (st : Style) (typ : Nat) (h : Heap) : h.Ext (doBlock c s st typ h).1 := by
-  cases st with
-  | fresh => exact newTokenResult_ext h 1 _
-  | ctx => exact resetToBlockedWith_ext h _ _
-  | own => exact resetToBlockedWith_ext h _ _
+  cases st <;> first | exact resetToBlockedWith_ext h _ _ | exact newTokenResult_ext h 1 _ | exact (resetToPass_ext h _).trans (resetToBlockedWith_ext _ _ _)
 
 theorem runRules_ext (c : Nat) (rs : List RSlot) (h : Heap) : h.Ext (runRules c rs h).1 := by
   induction rs generalizing h with
@@ -876,6 +870,9 @@ theorem step_ext (s : State) (op : Op) : s.h.Ext (step s op).1.h := by
     | none => exact Heap.Ext.refl _
     | some r => dsimp only; cases r.blockAt <;> exact Heap.Ext.refl _
   | globalorder => exact Heap.Ext.refl _
+  | ctxq e p =>
+    simp only [step]
+    cases findEntry s e <;> exact Heap.Ext.refl _
 
 theorem runOps_ext (ops : List Op) (s : State) : s.h.Ext (runOps s ops).h := by
   induction ops generalizing s with
@@ -908,13 +905,18 @@ theorem resetToBlockedWith_status1 (h : Heap) (t0 : Nat) (b : BErr) (t : Nat)
 
 theorem doBlock_status1 (c : Nat) (s : RSlot) (st : Style) (typ : Nat) (h : Heap) (t : Nat)
     (h1 : ((doBlock c s st typ h).1.trs t).status = 1) : (h.trs t).status = 1 ∨ t = (doBlock c s st typ h).2 := by
-  cases st with
-  | fresh =>
+  have hfresh : ((newTokenResult h 1 (blockVal s typ)).1.trs t).status = 1 →
+      (h.trs t).status = 1 ∨ t = (newTokenResult h 1 (blockVal s typ)).2 := by
+    intro h1
     by_cases e : t = h.ntr
-    · right; simpa [doBlock, newTokenResult, allocBE, allocTR] using e
-    · left; simpa [doBlock, newTokenResult, allocBE, allocTR, upd, e] using h1
-  | ctx => exact resetToBlockedWith_status1 h _ _ t h1
-  | own => exact resetToBlockedWith_status1 h _ _ t h1
+    · right; simpa [newTokenResult, allocBE, allocTR] using e
+    · left; simpa [newTokenResult, allocBE, allocTR, upd, e] using h1
+  have hreset : ∀ t0, ((resetToPass h t0).trs t).status = 1 → (h.trs t).status = 1 := by
+    intro t0 h2
+    by_cases e : t = t0
+    · simp [resetToPass, upd, e] at h2
+    · simpa [resetToPass, upd, e] using h2
+  cases st <;> first | exact resetToBlockedWith_status1 h _ _ t h1 | exact hfresh h1 | exact (resetToBlockedWith_status1 (resetToPass h (h.ctxs c)) (h.ctxs c) _ t h1).imp_left (hreset _)
 
 theorem runRules_status1 (c : Nat) (rs : List RSlot) (h : Heap) (t : Nat)
     (h1 : ((runRules c rs h).1.trs t).status = 1) :
@@ -1169,6 +1171,9 @@ theorem step_quiet (s : State) (op : Op) (hq : s.h.Quiet) (hop : op.blockPanicFr
     | none => exact hq
     | some r => dsimp only; cases r.blockAt <;> exact hq
   | globalorder => exact hq
+  | ctxq e p =>
+    simp only [step]
+    cases findEntry s e <;> exact hq
 
 theorem stepExit_log (s : State) (e : String) (r : EntryRec) (ch : ChainDef) (l : List Call) (hq : s.h.Quiet)
     (hr : findEntry s e = some r) (hnb : r.blockAt = none) (hne : r.exited = false)
@@ -1308,8 +1313,8 @@ theorem ChainsAgree.of_chains {s t : State} {s' t' : SState} (h : ChainsAgree s 
   have := h n
   simpa [findChain, SState.findChain, e1, e2] using this
 
-theorem recordEntry_chains (s : State) (e n : String) (r : Heap × List Call × EntryRes) :
-    (recordEntry s e n r).1.chains = s.chains := by
+theorem recordEntry_chains (s : State) (e n : String) (ch : ChainDef) (r : Heap × List Call × EntryRes) :
+    (recordEntry s e n ch r).1.chains = s.chains := by
   unfold recordEntry
   cases r.2.2 <;> rfl
 
@@ -1366,7 +1371,7 @@ theorem step_agree (s : State) (s' : SState) (op : Op) (h : ChainsAgree s s') :
       | none =>
         cases findChain s n with
         | none => rfl
-        | some ch => exact recordEntry_chains _ _ _ _
+        | some ch => exact recordEntry_chains _ _ _ _ _
     · simp only [sstep]
       cases s'.findEntry e with
       | some _ => rfl
@@ -1424,6 +1429,13 @@ theorem step_agree (s : State) (s' : SState) (op : Op) (h : ChainsAgree s s') :
       | none => rfl
       | some r => dsimp only; cases r.verdict <;> rfl
   | globalorder => exact h
+  | ctxq e p =>
+    apply h.of_chains
+    · simp only [step]; cases findEntry s e <;> rfl
+    · simp only [sstep]
+      cases s'.findEntry e with
+      | none => rfl
+      | some r => dsimp only; split_ifs <;> rfl
 
 def srunOps (s : SState) (ops : List Op) : SState := ops.foldl (fun s o => (sstep s o).1) s
 
@@ -1604,6 +1616,9 @@ theorem step_blockedAt (s : State) (op : Op) (e : String) (a : Nat) (h : blocked
     | none => exact ⟨x, hx, hxa⟩
     | some r => dsimp only; cases r.blockAt <;> exact ⟨x, hx, hxa⟩
   | globalorder => exact ⟨x, hx, hxa⟩
+  | ctxq e' p =>
+    simp only [step]
+    cases findEntry s e' <;> exact ⟨x, hx, hxa⟩
 
 theorem runOps_blockedAt (ops : List Op) (s : State) (e : String) (a : Nat) (h : blockedAt s e a) :
     blockedAt (runOps s ops) e a := by
@@ -1865,6 +1880,7 @@ theorem step_names_model (s : State) (op : Op) (hop : ∀ e n, op ≠ .entry e n
     | none => rfl
     | some r => dsimp only; cases r.blockAt <;> rfl
   | globalorder => rfl
+  | ctxq e p => simp only [step]; cases findEntry s e <;> rfl
 
 theorem step_names_spec (s : SState) (op : Op) (hop : ∀ e n, op ≠ .entry e n) :
     (sstep s op).1.entries.map (·.name) = s.entries.map (·.name) := by
@@ -1903,6 +1919,11 @@ theorem step_names_spec (s : SState) (op : Op) (hop : ∀ e n, op ≠ .entry e n
     | none => rfl
     | some r => dsimp only; cases r.verdict <;> rfl
   | globalorder => rfl
+  | ctxq e p =>
+    simp only [sstep]
+    cases s.findEntry e with
+    | none => rfl
+    | some r => dsimp only; split_ifs <;> rfl
 
 theorem step_names (s : State) (s' : SState) (op : Op) (hc : ChainsAgree s s') (hn : NamesAgree s s') :
     NamesAgree (step s op).1 (sstep s' op).1 := by
